@@ -58,7 +58,7 @@ LONG = st.builds(
 def boundary_values(draw):
     """long strings with a metacharacter token placed exactly on / next to a multiple of 4096 (lexer chunk, typical
     buffer and slice sizes), so that escaping done piecewise or a token cut in two becomes visible"""
-    k = draw(st.sampled_from([1, 1, 1, 2]))
+    k = draw(st.sampled_from([1, 1, 1, 1, 2, 2, 4, 8, 16, 16, 32]))
     back = draw(st.integers(-3, 6))
     tok = draw(st.sampled_from(["//", "//", ":", ";", "\\", "\\:", ";;", "//x", "/", "a:b", "é", "\n"]))
     fill = draw(st.sampled_from(["x", "x", "0", "é"]))
@@ -86,6 +86,12 @@ def pairs(draw, fmt, chart=False):
     k = draw(keys(fmt, chart=chart))
     v = draw(values())
     sel = draw(st.integers(0, 19))
+    if sel in (3, 4):
+        # the same colon-containing string under several keys of one simfile / chart (multi-value and ordinary ones)
+        v = draw(st.shared(st.sampled_from(["120:240", "a:b", "TIME=1.5:LEN=2:MODS=*2 x", "1:2:3", ":"]), key="shared-colon-value"))
+        if sel == 4:
+            k = draw(st.sampled_from(msdgap.MULTI))
+        return list(msdgap.safe_pair(k, v))
     if sel == 1:
         v = msdgap.safe_text(draw(boundary_values()))
     if sel in (0, 2):
@@ -213,6 +219,8 @@ def sim_ops(draw, fmt):
             k, v = draw(pairs("ssc", chart=True))
             return ["cset", draw(idx), k, v]
         if kind == "cdel":
+            if draw(st.integers(0, 2)) == 0:
+                return ["cnotes_rename", draw(idx)]
             return ["cdel", draw(idx), draw(keys("ssc", chart=True))]
         if kind == "caset":
             a = draw(st.sampled_from(sorted(M.SSC_CHART_ATTRS)))
